@@ -629,7 +629,7 @@ def correspond(ctx):
   cases = [('real', tt, real[0], real[1])] if ctx.tier == 'thorough' else []
   if run_generator(real[0], real[1], tt) != run_generator_real_inprocess():
     ctx.broken('correspondence:harness wrapper', 'main() on the swapped-in copy of the real schema differs from main() itself')
-  for _ in range(ctx.n(50, 1500)):
+  for _ in range(ctx.n(50, 800)):
     cases.append(gen_schema_case(ctx.rng, real, tt))
   coq = []
   kept = []
@@ -661,7 +661,7 @@ def correspond(ctx):
   import usertypes
   for k in list(usertypes._type_defaults) + ['Foo', 'Ref:Table1', 'DateTime:UTC', ':', '']:
     dkept.append((list(usertypes._type_defaults.items()), k))
-  for _ in range(ctx.n(300, 5000)):
+  for _ in range(ctx.n(200, 3000)):
     dkept.append(gen_default_case(ctx.rng, None))
   for table, t in dkept:
     got = py_wire(py_val(call_get_type_default(table, t)))
@@ -670,7 +670,7 @@ def correspond(ctx):
     dcases.append('(%s, %s, %s)' % (coq_pairs([(k, py_val(v)) for k, v in table], coq_py_val), S(t), coq_wire(got)))
   bad = ctx.run_cases('defaults', ['Grist.Model.JsSchema'],
                       'fun c => wire_same (py_wire (py_col_default (fst (fst c)) (snd (fst c)))) (snd c)', dcases,
-                      shard=700, extra_defs=
+                      shard=60, extra_defs=
                       'Definition wire_same (a b : wire) : bool := match a, b with WBad, WBad => true | _, _ => wire_eqb a b end.')
   for i in bad[:5]:
     ctx.broken('correspondence:Model.JsSchema.py_col_default differs from usertypes.get_type_default', 'case %r' % (dkept[i],))
@@ -839,6 +839,3 @@ def replay(ctx, w):
   if w.get('check') == 'default':
     return default_diff(w['type'])
   return None
-
-
-DISABLED = True
